@@ -12,7 +12,9 @@ CONSTANTS BigSizes,      \* body lengths around buffer boundaries used in this t
           TripleStride   \* take every TripleStride-th triple
 
 F(lname, style, words) == [lname |-> lname, style |-> style, words |-> words]
-T(name, lname, value) == [name |-> name, lname |-> lname, value |-> value]
+T(name, lname, value) == [name |-> name, lname |-> lname, value |-> value, seen |-> value]
+\* a trailer whose value is folded over two lines
+TF(name, lname, w1, w2) == [name |-> name, lname |-> lname, value |-> w1 \o "\r\n " \o w2, seen |-> w1 \o " " \o w2]
 
 HostField == F("host", "canon", <<"example.com">>)
 
@@ -61,7 +63,8 @@ Shape(bi, hi, e, k) ==
     [method |-> Methods[(k % 4) + 1], target |-> Targets[((k \div 2) % 4) + 1], ver |-> "1.1",
      fields |-> HeaderSets[hi], framing |-> b.framing, bodyLen |-> b.bodyLen, chunks |-> b.chunks,
      hexUpper |-> (k % 2 = 0), chunkExt |-> (b.framing = "chunked" /\ k % 3 = 0),
-     trailers |-> IF b.framing = "chunked" /\ k % 2 = 1 THEN <<T("X-T", "x-t", "tv")>> ELSE << >>,
+     trailers |-> IF b.framing = "chunked" /\ k % 4 = 1 THEN <<T("X-T", "x-t", "tv")>>
+                  ELSE IF b.framing = "chunked" /\ k % 4 = 3 THEN <<TF("X-T", "x-t", "t1", "t2"), T("X-U", "x-u", "uv")>> ELSE << >>,
      expect100 |-> e, close |-> FALSE, clStyle |-> Styles[(k % 4) + 1], bodyLit |-> "", raw |-> ""]
 
 ShapeIdx == {<<bi, hi, e>> : bi \in 1 .. Len(Bodies), hi \in 1 .. Len(HeaderSets), e \in BOOLEAN}
